@@ -568,7 +568,8 @@ def judge_git_graph(ctx, g, op, args, got):
         if g.monotone:
             raise HarnessError(f"C13: git and the model disagree on a monotone clock: {op}{tuple(args)} git={gv} model={want} "
                                f"parents={g.parents} times={g.times}")
-        ctx.label("git-disagrees-with-model(skewed-clock)")
+        ctx.label("git-disagrees-with-model(skewed-clock):" + _FN[op])
+        ctx.notes.append(f"git {op}{tuple(args)} = {gv}, model {want}; parents={g.parents} times={[t - T0 for t in g.times]}")
     else:
         ctx.label("git-agrees-with-model")
 
@@ -587,7 +588,7 @@ def judge_git_walk(ctx, g, q, got, check="git-walk"):
     if set(gv) != want:
         if g.monotone:
             raise HarnessError(f"C13: git rev-list and the model disagree on a monotone clock: {o} git={gv} model={sorted(want)}")
-        ctx.label("git-disagrees-with-model(skewed-clock)")
+        ctx.label("git-disagrees-with-model(skewed-clock):rev-list" + ("-with-excludes" if o["exclude"] else ""))
         return
     ctx.label("git-agrees-with-model")
     case = g.base_case()
